@@ -21,6 +21,10 @@ class PathPanic(Exception):
         self.where = where
 
 
+class PathBound(Exception):
+    """the path leaves the stated bounds of the query (neither a pass nor a violation; reported as outside the bound)"""
+
+
 class PathResult:
     def __init__(self, kind, ret, pc, ctx, msg=None, decisions=None):
         self.kind, self.ret, self.pc, self.ctx, self.msg, self.decisions = kind, ret, pc, ctx, msg, decisions
@@ -224,7 +228,8 @@ class Frame:
 class Exec:
     def __init__(self, program, models, timeout_ms=30000, max_steps=200000, max_paths=4000):
         self.P = program
-        self.models = models  # list of (compiled regex, fn)
+        # specific patterns before catch-all trait patterns (`<.* as Trait>::m`)
+        self.models = sorted(models, key=lambda m: 1 if m[0].pattern.startswith("^<.* as") else 0)
         self.solver = z3.Solver()
         self.solver.set("timeout", timeout_ms)
         self.max_steps = max_steps
@@ -262,6 +267,8 @@ class Exec:
                     results.append(PathResult("ok", ret, list(self.pc), ctx, decisions=list(self.trace)))
                 except PathPanic as p:
                     results.append(PathResult("panic", None, list(self.pc), ctx, msg=f"{p.msg} @ {p.where}", decisions=list(self.trace)))
+                except PathBound as b:
+                    results.append(PathResult("bound", None, list(self.pc), ctx, msg=str(b), decisions=list(self.trace)))
             finally:
                 self.solver.pop()
             self.stats["paths"] += 1
@@ -500,8 +507,8 @@ class Exec:
             if loc.meta == "transparent" and obj is None:
                 return loc
             if isinstance(obj, (Struct, Enum)):
-                if "ScriptBit" in p[3] and isinstance(obj, Struct) and obj.name == "Script":
-                    raise Unsupported("direct access to Script internals (Script is opaque in E2)")
+                if "ScriptBit" in p[3] and isinstance(obj, Struct) and obj.name == "Script" and not isinstance(obj.f[0], ListV):
+                    raise Unsupported("direct access to Script internals (Script is opaque in this query)")
                 if p[2] >= len(obj.f):
                     raise Unsupported(f"field {p[2]} of {obj!r}")
                 return Ptr(obj.f, p[2])
